@@ -3,7 +3,7 @@ import StirVerif.C16.Model
 
 Lines:
   cfg world <w>                                  start a new world (tables cleared, object reset)
-  cfg tmpl <k> <base> <dets> <rings> <ntang> <nseg>
+  cfg tmpl <k> <base> <dets> <rings> <ntang> <nseg> <blocks 0|1> <transaxial buckets>
   cfg nspgiven <s> <thr> <n>                     #scatter points of scatter-point image s at threshold thr
   cfg nspdown <att> <zoom> <thr> <n>             … of attenuation image att down-sampled with zoom set
   cfg zbad <act>                                 activity image with a different z-middle
@@ -11,6 +11,10 @@ Lines:
   new | set_tmpl k | set_act k | set_att k | set_spimg k | set_exam k | set_zoom k | set_thr k
   set_use_cache b | set_cache_enabled b | set_ds b rings dets | ds_scanner r d | set_up | process | nsp | tmplinfo
        (k = -1: null pointer)
+  set_act_ip k | set_att_ip k | set_spimg_ip k   the owner's image object is overwritten in place with the values of pool
+                                                 image k and the SAME pointer is handed to the setter again
+  ds_sp                                          downsample_density_image_for_scatter_points(current zoom set)
+  effns <rAB2> <eff511> <cosA> <cosB> <pi>       detection_efficiency_no_scatter(A,B)
   ssp  <5 pair values> <5 values for A> <5 values for B>          simulate_for_one_scatter_point
   est  <n> (<15 values>)^n <rAB2> <eff511> <cosA> <cosB> <pi> <vol> <sigma511>   actual_scatter_estimate
 Floats are C99 hex floats, parsed exactly into `Rat`. -/
@@ -93,8 +97,14 @@ def doEst (n : Nat) (xs : List Rat) : String :=
     s!"{fmtRat v} {fmtRat m}"
   | _ => "bad-op"
 
+def doEffNs : List Rat → String
+  | [rAB2, eff511, cosA, cosB, pi] =>
+    s!"{fmtRat (detectionEfficiencyNoScatter rAB2 eff511 cosA cosB pi)} {fmtRat (detectionEfficiencyNoScatter (absR rAB2) (absR eff511) (absR cosA) (absR cosB) (absR pi))}"
+  | _ => "bad-op"
+
 structure Tables where
   tmpls : List (Nat × Tmpl) := []
+  blocks : List Nat := []
   nspGiven : List ((Nat × Nat) × Nat) := []
   nspDown : List ((Nat × Nat × Nat) × Nat) := []
   zbad : List Nat := []
@@ -105,6 +115,7 @@ def Tables.world (t : Tables) : World :=
       | .given s => ((t.nspGiven.find? (·.1 == (s, p.thr))).map (·.2)).getD 0
       | .down a z => ((t.nspDown.find? (·.1 == (a, z, p.thr))).map (·.2)).getD 0
     defaultDsRings := fun _ => 2
+    blocksBase := fun b => t.blocks.contains b
     zOk := fun a => !t.zbad.contains a }
 
 structure DSt where
@@ -125,6 +136,9 @@ def parseOp (W : World) (toks : List String) : Option (List Op) :=
   | ["set_act", k] => some [.setActivity (optId k)]
   | ["set_att", k] => some [.setDensity (optId k)]
   | ["set_spimg", k] => some [.setSpImage (optId k)]
+  | ["set_act_ip", k] => some [.setActivityInPlace (N k)]
+  | ["set_att_ip", k] => some [.setDensityInPlace (N k)]
+  | ["set_spimg_ip", k] => some [.setSpImageInPlace (N k)]
   | ["set_exam", k] => some [.setExam (N k)]
   | ["set_zoom", k] => some [.setZoom (N k)]
   | ["set_thr", k] => some [.setThr (N k)]
@@ -132,6 +146,7 @@ def parseOp (W : World) (toks : List String) : Option (List Op) :=
   | ["set_cache_enabled", b] => some [.setCacheEnabled (b == "1")]
   | ["set_ds", b, r, d] => some [.setDsBool (b == "1"), .setDsRings (I r), .setDsDets (I d)]
   | ["ds_scanner", r, d] => some [.downsampleScanner (I r) (I d)]
+  | ["ds_sp"] => some [.downsampleSp]
   | ["set_up"] => some [.setUp]
   | ["process"] => some [.process]
   | _ => none
@@ -161,6 +176,9 @@ def stepLine (d : DSt) (line : String) : DSt × String :=
   | ["cfg", "world", _] => ({ tab := {}, st := some init, clean := false }, "ok")
   | ["cfg", "tmpl", k, b, dd, r, nt, ns] =>
     ({ d with tab := { d.tab with tmpls := (N k, ⟨N b, N dd, N r, N nt, N ns⟩) :: d.tab.tmpls } }, "ok")
+  | ["cfg", "tmpl", k, b, dd, r, nt, ns, bl, _] =>
+    ({ d with tab := { d.tab with tmpls := (N k, ⟨N b, N dd, N r, N nt, N ns⟩) :: d.tab.tmpls,
+                                  blocks := if bl == "1" then N b :: d.tab.blocks else d.tab.blocks } }, "ok")
   | ["cfg", "nspgiven", s, t, n] =>
     ({ d with tab := { d.tab with nspGiven := ((N s, N t), N n) :: d.tab.nspGiven } }, "ok")
   | ["cfg", "nspdown", a, z, t, n] =>
@@ -172,6 +190,10 @@ def stepLine (d : DSt) (line : String) : DSt × String :=
   | "ssp" :: xs =>
     match xs.mapM parseHexFloat with
     | some rs => (d, doSsp rs)
+    | none => (d, "bad-number")
+  | "effns" :: xs =>
+    match xs.mapM parseHexFloat with
+    | some rs => (d, doEffNs rs)
     | none => (d, "bad-number")
   | "est" :: n :: xs =>
     match xs.mapM parseHexFloat with
